@@ -106,7 +106,7 @@ pub fn gen_content(rng: &mut Rng, kind: CompKind) -> Content {
 }
 
 pub fn gen_alpha_pat(rng: &mut Rng) -> AlphaPat {
-    AlphaPat { kind: *rng.pick(&[0u8, 0, 1, 2, 3, 4, 5, 6, 7, 8, 9]), seed: rng.next() }
+    AlphaPat { kind: *rng.pick(&[0u8, 0, 1, 2, 3, 4, 5, 6, 7, 8, 9, 10, 11, 11]), seed: rng.next() }
 }
 
 /// A valid crop box (inside the image, positive area), of the kinds the properties name.
@@ -288,6 +288,26 @@ pub fn random_case(rng: &mut Rng, o: &GenOpts) -> RCase {
         }
     }
     let (mut dw, mut dh) = (dw, dh);
+    if o.crops && sw >= 3 && sh >= 3 && rng.chance(1, 14) {
+        // pure sub-pixel shift: the crop box has an integer size equal to the destination and a fractional
+        // (or half-integer, or one-axis-integer) origin
+        let w = rng.range(1, (sw - 1) as u64) as f64;
+        let h = rng.range(1, (sh - 1) as u64) as f64;
+        let frac = |rng: &mut Rng, room: f64| -> f64 {
+            match rng.below(4) {
+                0 => (room * rng.unit()).floor(),
+                1 => ((room * rng.unit()).floor() + 0.5).min(room),
+                _ => room * rng.unit(),
+            }
+        };
+        let l = frac(rng, sw as f64 - w);
+        let t = frac(rng, sh as f64 - h);
+        if l + w <= sw as f64 && t + h <= sh as f64 {
+            crop = Crop::Box([l, t, w, h]);
+            dw = w as u32;
+            dh = h as u32;
+        }
+    }
     if let Crop::Box(b) = crop {
         // single-pass geometries with a crop offset: one destination dimension equals an integer crop dimension
         if b[0] == b[0].round() && b[2] == b[2].round() && b[2] >= 1.0 && rng.chance(1, 5) {
